@@ -5,9 +5,20 @@ COMMON_TRUSTED = [
     "Lean compiler/runtime executing the model definitions in the native driver dnsdrv",
 ]
 
+NOT_BUILT_REASON = ("check not built yet in this session (work in progress; see DESIGN.md order of work) - "
+                    "the property is decidable by the technique and is planned")
+
 PROPS = {
     "C17": {
         "prelude_ops": ["isprint"],
+        "manifest": {
+            "text": "Lean 4 theorems bunquote_bquote / bquote_no_comma_colon / bquote_no_newline / bquote_injective over a "
+                    "byte-exact model of Bquote/Bunquote (incl. strconv.Quote, UnquoteChar, UTF-8 decode/encode) for every byte "
+                    "string and every IsPrint predicate; the model is tied to the code on every run by a differential run (all "
+                    "strings of length <= 2 plus structured random ones) against the real quote package",
+            "note": "Trusted: Lean kernel, axioms propext/Classical.choice/Quot.sound, the correspondence harness; Go's IsPrint "
+                    "table enters as a parameter (newline theorem assumes IsPrint(10)=false, checked on the real table each run).",
+        },
         "trusted": COMMON_TRUSTED + [
             "Go strconv.IsPrint enters the model as a parameter (theorems hold for every predicate); "
             "utf8.DecodeRune/EncodeRune, strconv.Quote/UnquoteChar, bytes.ReplaceAll are modelled in Lean and "
@@ -18,5 +29,27 @@ PROPS = {
                 "distinct = distinct (op, output shape with hex runs collapsed) classes",
         "assumptions": ["strconv.IsPrint is false on ',' ':' and control characters only matters for the "
                         "no-separator theorem and is stated there as a hypothesis; checked on Go's table by the correspondence"],
+    },
+    "C15": {
+        "manifest": {
+            "text": "Lean 4 refinement proof: the byte-level model of the RocksDB multi-value store (length-prefixed chunk codec, "
+                    "Add, Del, Batch with getAffectedKeys/integrate, ForEach) refines the specification 'map from key to list of "
+                    "values' for every history of Add/Del/batch (history_refines, by induction over the operation list; "
+                    "batch_refines: a batch equals all additions then all deletions and a failing batch changes nothing). The model "
+                    "is tied to the code by running the same histories (exhaustive to length 4/5 over 2 keys x 3 values, random long "
+                    "ones with batches, backup/restore steps) on a real RocksDB and diffing results and dumps.",
+            "note": "Trusted: Lean kernel + standard axioms; RocksDB Get/Put/Delete/GetMulti/WriteBatch atomicity and the backup "
+                    "engine are external (backup+restore is modelled as the identity and only checked by dump equality - partial); "
+                    "Go's unstable sort.Slice is modelled as a stable sort and results are compared as multisets per key.",
+        },
+        "trusted": COMMON_TRUSTED + [
+            "RocksDB (Get/Put/Delete/GetMulti/WriteBatch, backup engine) is external: modelled as an abstract key-value map; "
+            "backup+restore modelled as identity",
+            "sort.Slice (unstable) modelled as stable insertion sort; values compared as per-key multisets",
+        ],
+        "rule": "exhaustive Add/Del histories over 2 keys x 3 values (empty, 'a', 'ab') to length 4 (quick) / 5 (thorough); "
+                "random histories to length 400 with batches of 0-50 ops over 4 keys and 6 + random values; every 50th history on "
+                "its own database with backup/restore steps; raw malformed chunk decoding; distinct = distinct (op, result-shape)",
+        "assumptions": ["values shorter than 2^32 bytes (uint32 length prefix)"],
     },
 }
